@@ -3,6 +3,7 @@ import glob
 import os
 import re
 
+import gen
 import vgen
 from common import (cg, c_to_json, c_from_json, canon, canon_c, cdiff, call, ordered, simulate, free_nodes,
                     all_assignments, REPO)
@@ -137,6 +138,13 @@ class P(Prop):
 
     def compare(self, text, name, bbs, tag="", valid=False):
         case = {"text": text, "name": name, "bbs": [[b.name, sorted(b.input_set), sorted(b.output_set)] for b in bbs]}
+        if self.rng.random() < 0.3:
+            # call history: earlier results of the very same calls, edited in place by their owner
+            for fast in (False, True):
+                o0, c0 = call(cg.io.verilog_to_circuit, text, name, False, bbs, False, False, fast)
+                if o0 == "ok":
+                    gen.poison_result(self.rng, c0)
+            self.stats.bump("history:earlier-result-edited")
         o1, c1 = call(cg.io.verilog_to_circuit, text, name, False, bbs, False, False, False)
         o2, c2 = call(cg.io.verilog_to_circuit, text, name, False, bbs, False, False, True)
         self.search_cases += 1
